@@ -451,7 +451,7 @@ pub fn world_proof(name: &str, client_seed: u32, server_seed: u32, k: &[u8; 40])
 
 /// Chunk-size menu of the stream monitors (DESIGN.md C07).
 pub fn chunk_len(r: &mut Rng, remaining: usize) -> usize {
-    const MENU: [usize; 15] = [0, 1, 2, 3, 4, 6, 39, 40, 41, 79, 80, 81, 255, 256, 257];
+    const MENU: [usize; 16] = [0, 1, 2, 3, 4, 5, 6, 39, 40, 41, 79, 80, 81, 255, 256, 257];
     let n = match r.below(10) {
         0..=5 => MENU[r.below(MENU.len() as u64) as usize],
         6..=8 => r.below(4097) as usize,
